@@ -20,7 +20,8 @@ func (c09) ID() string    { return "C09" }
 func (c09) Level() string { return "exploration" }
 func (c09) Rule() string {
 	return "generated schema with 1..3 choices per container (nested choices in cases, shorthand cases, cases holding leaf/leaf-list/container/list, " +
-		"choices inside lists) + histories of 2..12 upserts whose sources select different cases; sources {reference store, JSON reader}; " +
+		"choices inside lists) + histories of 2..12 upserts whose sources select different cases; sources {reference store, JSON reader}; targets " +
+		"{reference store, nodeutil.Reflect over Go maps, nodeutil.Node over Go maps} (the implementations with case detection over unambiguous data); " +
 		"monitors after every step: (a) invariant scan of the target store: every choice has data in at most one case; (b) target == model " +
 		"(SwitchCase semantics, everything outside the choice untouched); (c) export reports the selected case only, in schema order. " +
 		"A shape = (choice nesting depth, kinds in old and new case, entry kind, source impl); trivial = step that stays in the same case"
